@@ -31,16 +31,18 @@ def apply_patch(dst, patch):
 
 
 OLD_BASE = '3bf2588'      # the commit the stored patches of waves 1-7 were written against
-OLD_BASE_SKIP = 'REG-RECORD'   # 08c3146 repaired exec_binary's two-lookup read after that; REG-RECORD reports it on the old base
+OLD_BASE_SKIP = 'REG-RECORD:|get_op_type+get_handler'   # 08c3146 repaired the two-lookup read (get_op_type, then get_handler) after that; REG-RECORD reports exactly that pair on the old base
 
 
-def tree_with(patch):
+def tree_with(patch, force_old=False):
     """(tmp dir, tree, extra env, ok): /repo's working tree with the patch applied; if the patch no longer applies there
-    (it rewrites code a later fix: commit touched), the commit it was written against with the patch applied"""
+    (it rewrites code a later fix: commit touched) — or applies but no longer builds (force_old, asked for by the caller
+    after a tool failure) — the commit it was written against with the patch applied"""
     d, dst = scratch()
-    okp, pout = apply_patch(dst, patch)
-    if okp:
-        return d, dst, {}, True
+    if not force_old:
+        okp, pout = apply_patch(dst, patch)
+        if okp:
+            return d, dst, {}, True
     shutil.rmtree(dst, ignore_errors=True)
     os.makedirs(dst)
     p1 = subprocess.Popen(['git', '-C', REPO, 'archive', OLD_BASE], stdout=subprocess.PIPE)
@@ -126,16 +128,26 @@ def run_checks(only=None, tier='quick', all_props=False):
                 sys.path.insert(0, os.path.join(VERIF, 'rules'))
                 import props as P
                 props = sorted(P.PROPS)
-            caught = []
-            detail = ''
-            for p in props:
-                rc, out = sh([os.path.join(VERIF, 'check'), p, tier], VERIF, dict({'VERIF_REPO': dst, 'VERIF_NO_EVIDENCE': '1'}, **xenv))
-                if rc == 1:
-                    caught.append(p)
-                    if p == pid:
-                        detail = '; '.join(l.strip() for l in out.splitlines() if l and not l.startswith(('VIOLATION', 'KNOWN', ' ')) and ':' in l)[:300]
-                elif rc != 0:
-                    caught.append(p + '(tool-failure)')
+            for attempt in (0, 1):
+                caught = []
+                detail = ''
+                for p in props:
+                    rc, out = sh([os.path.join(VERIF, 'check'), p, tier], VERIF, dict({'VERIF_REPO': dst, 'VERIF_NO_EVIDENCE': '1'}, **xenv))
+                    if rc == 1:
+                        caught.append(p)
+                        if p == pid:
+                            detail = '; '.join(l.strip() for l in out.splitlines() if l and not l.startswith(('VIOLATION', 'KNOWN', ' ')) and ':' in l)[:300]
+                    elif rc != 0:
+                        caught.append(p + '(tool-failure)')
+                        if attempt == 0 and not xenv:
+                            break
+                if attempt == 0 and not xenv and any('tool-failure' in c for c in caught):
+                    # the patch applies to HEAD textually but the result does not build: replay on the commit it was written against
+                    shutil.rmtree(d, ignore_errors=True)
+                    d, dst, xenv, okp = tree_with(os.path.join(sd, 'patch.diff'), force_old=True)
+                    if okp:
+                        continue
+                break
             rows.append((name, 'CAUGHT' if pid in caught else 'MISSED', 'by %s  %s' % (caught, detail)))
         finally:
             shutil.rmtree(d, ignore_errors=True)
